@@ -171,10 +171,10 @@ CLAIMED['C11'] = dict(
     text='Partial (GIL-owned decoders). Loop-contract proofs on the real bodies: the PNM text token loop keeps every write inside its 16-byte buffer for EVERY byte sequence '
          'the device can deliver and terminates (variant: bytes remaining); the BMP RLE4/RLE8 state machine (read_palette_image_rle: command loop + four pixel loops), '
          'copy_row_if_needed and read_palette keep every row-buffer write, palette read, iterator step and row copy (source and destination view) in bounds for every '
-         'byte sequence and terminate in the bytes remaining; both devices\' read(T(&)[N]) return normally only when all N elements arrived; the TARGA RLE decoding loop (read_rle_data) keeps every run and raw chunk inside the image buffer, computes its size without overflow (integer-theory lemma) and terminates; the BMP row pitch (reader '
+         'byte sequence and terminate in the bytes remaining; both devices\' read(T(&)[N]) return normally only when all N elements arrived; BMP read_header (no undefined arithmetic on header fields), the 15/16-bit colour-mask set-up and pixel decode of reader and scanline reader (every shift count in range for every BI_BITFIELDS mask triple), count_ones / trailing_zeros against popcount / ctz; the TARGA RLE decoding loop (read_rle_data) keeps every run and raw chunk inside the image buffer, computes its size without overflow (integer-theory lemma) and terminates; the BMP row pitch (reader '
          'and scanline reader) is a multiple of 4 and at least the bytes the row decoders consume for every width <= 2^24 and accepted bit depth. '
          'Bounded native stand-ins (ASan/UBSan, canary frame, watchdog): crafted PNM/BMP byte sequences and all RLE command sequences of length 2 (thorough: 3) through the real read_image / read_view.',
-    note=TRUST + 'PNG/JPEG/TIFF (external libraries), TARGA header / colour-mapped / uncompressed paths, BMP header validation, the uncompressed BMP row loops and the template drivers are not under contract; '
+    note=TRUST + 'PNG/JPEG/TIFF (external libraries), TARGA header / colour-mapped / uncompressed paths, the uncompressed BMP row loops and the template drivers are not under contract; '
          'std::vector iterators are lowered to indices; the device is a ghost (arbitrary bytes, throws at end of input: proved for read(T(&)[N]) only); '
          'the requested window lying inside the image is a caller precondition (reader_base::check_coordinates is commented out in the real code).',
     technique='loop contracts (invariant + decreases) and function contracts enforced by CBMC DFCC on mechanically extracted bodies of the real decoders, callers checked against callee contracts; bounded native sanitizer windows',
